@@ -170,29 +170,50 @@ theorem stageMid_mem (r : Reg) (p : Pkt) (l : Lid) (h : stageMid r p = some l) :
     · simp at h
   · simp at h
 
-/-- every stage of `select` returns a listener the registry knows -/
-theorem select_registered (r : Reg) (p : Pkt) (l : Lid) (v : Via) (b : Bool)
-    (h : select r p = some (l, v, b)) : Registered r l := by
-  unfold select at h
+theorem lateStages_registered (r : Reg) (p : Pkt) (l : Lid) (v : Via) (b : Bool)
+    (h : lateStages r p = some (l, v, b)) : Registered r l := by
+  unfold lateStages at h
   split at h
   · rename_i l' hs; simp at h; obtain ⟨rfl, _, _⟩ := h
-    exact Or.inr (Or.inl (stageRid_mem r p _ hs))
+    exact Or.inl ⟨_, lookup_mem _ _ _ hs⟩
   · split at h
     · rename_i l' hs; simp at h; obtain ⟨rfl, _, _⟩ := h
-      exact Or.inr (Or.inr (Or.inl (stageMid_mem r p _ hs)))
+      obtain ⟨rt, hrt, hl⟩ := uniqueLoop_mem _ _ hs
+      exact Or.inr (Or.inr (Or.inr ⟨rt, (List.mem_filter.1 hrt).1, hl⟩))
     · split at h
       · simp at h
       · split at h
         · rename_i l' hs; simp at h; obtain ⟨rfl, _, _⟩ := h
-          exact Or.inl ⟨_, lookup_mem _ _ _ hs⟩
-        · split at h
-          · rename_i l' hs; simp at h; obtain ⟨rfl, _, _⟩ := h
-            obtain ⟨rt, hrt, hl⟩ := uniqueLoop_mem _ _ hs
-            exact Or.inr (Or.inr (Or.inr ⟨rt, (List.mem_filter.1 hrt).1, hl⟩))
-          · split at h
-            · rename_i l' hs; simp at h; obtain ⟨rfl, _, _⟩ := h
-              obtain ⟨rt, hrt, hl⟩ := uniqueLoop_mem _ _ hs
-              exact Or.inr (Or.inr (Or.inr ⟨rt, (List.mem_filter.1 hrt).1, hl⟩))
-            · simp at h
+          obtain ⟨rt, hrt, hl⟩ := uniqueLoop_mem _ _ hs
+          exact Or.inr (Or.inr (Or.inr ⟨rt, (List.mem_filter.1 hrt).1, hl⟩))
+        · simp at h
+
+/-- what `select` returns, stage by stage -/
+theorem select_cases (r : Reg) (p : Pkt) (l : Lid) (v : Via) (b : Bool) (h : select r p = some (l, v, b)) :
+    (stageRid r p = some l ∧ v = .rid ∧ b = true) ∨
+    (stageRid r p = none ∧ stageMid r p = some l ∧ v = .mid ∧ b = true) ∨
+    (stageRid r p = none ∧ stageMid r p = none ∧ lateStages r p = some (l, v, b) ∧ vetoed r p l = false) := by
+  unfold select at h
+  split at h
+  · rename_i l' hs; simp at h; obtain ⟨rfl, rfl, rfl⟩ := h; exact Or.inl ⟨hs, rfl, rfl⟩
+  · rename_i hr
+    split at h
+    · rename_i l' hs; simp at h; obtain ⟨rfl, rfl, rfl⟩ := h; exact Or.inr (Or.inl ⟨hr, hs, rfl, rfl⟩)
+    · rename_i hm
+      split at h
+      · rename_i l' v' b' hl
+        by_cases hv : vetoed r p l' = true
+        · simp [hv] at h
+        · simp [hv] at h; obtain ⟨rfl, rfl, rfl⟩ := h
+          exact Or.inr (Or.inr ⟨hr, hm, hl, by simpa using hv⟩)
+      · simp at h
+
+/-- every stage of `select` returns a listener the registry knows -/
+theorem select_registered (r : Reg) (p : Pkt) (l : Lid) (v : Via) (b : Bool)
+    (h : select r p = some (l, v, b)) : Registered r l := by
+  rcases select_cases r p l v b h with ⟨hs, _, _⟩ | ⟨_, hs, _, _⟩ | ⟨_, _, hs, _⟩
+  · exact Or.inr (Or.inl (stageRid_mem r p _ hs))
+  · exact Or.inr (Or.inr (Or.inl (stageMid_mem r p _ hs)))
+  · exact lateStages_registered r p l v b hs
 
 end RtcModel.Demux
